@@ -4,7 +4,7 @@
 #   1. demo passes on the unchanged tree, 2. patch applies and compiles, 3. demo fails with it,
 #   4. the unedited test suite passes with it.  Prints CONFIRMED or a reason; the worktree is
 #   kept between calls for speed (tools/confirm_seeded.sh --cleanup removes it).
-WT=/tmp/wt-confirm
+WT=${WT:-/tmp/wt-confirm}
 export CARGO_NET_OFFLINE=true
 if [ "$1" = "--cleanup" ]; then git -C /repo worktree remove --force $WT 2>/dev/null; rm -rf $WT; exit 0; fi
 D=$(cd "$1" && pwd) || exit 2
